@@ -73,6 +73,8 @@ def tasks(tier, seed):
         T.append(('multigrid', Ms, qd, ns))
     for Ms, qd, ns in ([((3, 2), 'LU', (1, 1)), ((3, 2, 2), 'IE', (1, 1, 1))] if quick else [((3, 2), 'LU', (1, 1)), ((3, 2, 2), 'IE', (1, 1, 1)), ((4, 2), 'IE', (2, 1)), ((3, 2, 1), 'LU', (1, 2, 1)), ((5, 3), 'LU', (1, 1))]):
         T.append(('multigrid', Ms, qd, ns, True))  # prolongation of values and right-hand sides
+    for Ms, qd, ns in ([((3, 2, 2), 'LU', (1, 1, 1)), ((3, 2), 'IE', (1, 1))] if quick else [((3, 2, 2), 'LU', (1, 1, 1)), ((3, 2), 'IE', (1, 1)), ((3, 2, 1), 'IE', (1, 2, 1)), ((4, 3, 2), 'LU', (1, 1, 1))]):
+        T.append(('multigrid', Ms, qd, ns, False, True))  # two cycles on the same step, the start value changes in between
     return T
 
 
@@ -87,7 +89,7 @@ def run_task(rep, task):
     elif task[0] == 'twogrid':
         twogrid_case(rep, task[1], task[2], task[3], task[4])
     elif task[0] == 'multigrid':
-        multigrid_case(rep, tuple(task[1]), task[2], tuple(task[3]), bool(task[4]) if len(task) > 4 else False)
+        multigrid_case(rep, tuple(task[1]), task[2], tuple(task[3]), bool(task[4]) if len(task) > 4 else False, bool(task[5]) if len(task) > 5 else False)
 
 
 def symmat(name, shape, lower=False, pad=True, strict=False):
@@ -544,7 +546,7 @@ def float_twogrid(Mf, Mc, qd, nsf, lam, dtf, env):
     return float(np.abs(got - cur).max())
 
 
-def _mg_run(d, Ms, setv, symbolic):
+def _mg_run(d, Ms, setv, symbolic, second=False):
     """one down-coarse-up-fine cycle of the REAL controller stage functions on a description; returns fine node values and the tables used"""
     from pySDC.implementations.controller_classes.controller_nonMPI import controller_nonMPI
 
@@ -564,6 +566,15 @@ def _mg_run(d, Ms, setv, symbolic):
     ctl.it_coarse([S_])
     ctl.it_up([S_])
     ctl.it_fine([S_])
+    if second:
+        # a second cycle on the same step after its start value has changed (what a receive from the previous step does), no reset in between
+        Lf.u[0] = setv('u0b', P)
+        Lf.f[0] = P.eval_f(Lf.u[0], 0.0)
+        S_.status.iter = 2
+        ctl.it_down([S_])
+        ctl.it_coarse([S_])
+        ctl.it_up([S_])
+        ctl.it_fine([S_])
     out = [Lf.u[m][0] for m in range(1, Ms[0] + 1)]
     tabs = dict(Q=[np.array(L.sweep.coll.Qmat, dtype=float)[1:, 1:] for L in S_.levels], QD=[np.array(L.sweep.QI, dtype=float)[1:, 1:] for L in S_.levels],
                 R=[np.array(bt.Rcoll, dtype=float) for bt in connect(S_)],
@@ -613,19 +624,20 @@ def mg_spec(tabs, Ms, ns, z, u0, U, lin, solve):
     return cur[0]
 
 
-def multigrid_case(rep, Ms, qd, ns, finter=False):
+def multigrid_case(rep, Ms, qd, ns, finter=False, second=False):
     """three (or two) levels with per-level sweep counts: the real controller cycle against the multigrid-in-time iteration (all fine iterates)"""
     # (finter: the fine right-hand sides are corrected by the prolonged coarse change instead of being re-evaluated; for a linear problem both
     # give the same values, so the specification is the same)
-    name = f'multigrid/M{"-".join(map(str, Ms))}/{qd}/ns{"-".join(map(str, ns))}' + ('/finter' if finter else '')
+    name = f'multigrid/M{"-".join(map(str, Ms))}/{qd}/ns{"-".join(map(str, ns))}' + ('/finter' if finter else '') + ('/two-cycles' if second else '')
     lam, dtf = -1.25, 0.25
     c = Ctx()
     Ctx.cur = c
     try:
         u0v = z3.Real('u0')
         Uv = [z3.Real(f'U{m}') for m in range(1, Ms[0] + 1)]
-        sym = {'u0': u0v, **{f'U{m}': Uv[m - 1] for m in range(1, Ms[0] + 1)}}
-        out, tabs = _mg_run(mg_desc(Ms, qd, ns, lam, dtf, sp.LinProb, sp.Inject, finter), Ms, lambda k, P: sp.mkmesh(P, [SymReal(sym[k])]), True)
+        u0b = z3.Real('u0b')
+        sym = {'u0': u0v, 'u0b': u0b, **{f'U{m}': Uv[m - 1] for m in range(1, Ms[0] + 1)}}
+        out, tabs = _mg_run(mg_desc(Ms, qd, ns, lam, dtf, sp.LinProb, sp.Inject, finter), Ms, lambda k, P: sp.mkmesh(P, [SymReal(sym[k])]), True, second)
         out = [R(o) for o in out]
     finally:
         Ctx.cur = None
@@ -645,18 +657,20 @@ def multigrid_case(rep, Ms, qd, ns, finter=False):
         return W
 
     spec = mg_spec(tabs, Ms, ns, z, u0v, Uv, lin, solve)
-    box = [z3.And(v >= -1, v <= 1) for v in Uv + [u0v]]
+    if second:
+        spec = mg_spec(tabs, Ms, ns, z, u0b, spec, lin, solve)
+    box = [z3.And(v >= -1, v <= 1) for v in Uv + [u0v] + ([u0b] if second else [])]
     tol = rv(1e-11)  # the specification uses the same tables; only Q - QD is rounded once more (1e-17)
     goal = z3.And([z3.And(out[m] - spec[m] <= tol, spec[m] - out[m] <= tol) for m in range(Ms[0])])
     res, model = prove(goal, defs + box, timeout_ms=120000, name=f'{name}:controller-cycle-equals-multigrid-iteration')
     rep.ob(f'{name}:controller-cycle-equals-multigrid-iteration', res)
     if res == 'sat':
         rep.replayed += 1
-        env = {str(v): float(model_value(model, v)) for v in Uv + [u0v]}
-        dev = float_multigrid(Ms, qd, ns, lam, dtf, env, finter)
+        env = {str(v): float(model_value(model, v)) for v in Uv + [u0v] + ([u0b] if second else [])}
+        dev = float_multigrid(Ms, qd, ns, lam, dtf, env, finter, second)
         if dev > 1e-11:
             rep.violation(f'{PID}/multigrid-iteration/{qd}', f'{name}: real controller cycle deviates from the multigrid-in-time iteration with the configured sweep counts by {dev:.3e}',
-                          {'task': ['multigrid', list(Ms), qd, list(ns), finter], 'env': env, 'deviation': dev})
+                          {'task': ['multigrid', list(Ms), qd, list(ns), finter, second], 'env': env, 'deviation': dev})
         else:
             rep.unreproduced(name, {'env': env, 'float_deviation': dev})
     # sensitivity: a specification with one sweep more on the middle level on the way up must be refuted
@@ -672,15 +686,17 @@ def multigrid_case(rep, Ms, qd, ns, finter=False):
     rep.sample({'case': name, 'free_variables': 'u0 and all fine node values in [-1,1]', 'tolerance': 1e-11}, limit=6)
 
 
-def float_multigrid(Ms, qd, ns, lam, dtf, env, finter=False):
+def float_multigrid(Ms, qd, ns, lam, dtf, env, finter=False, second=False):
     from harness import sweepspec as ss
 
-    out, tabs = _mg_run(mg_desc(Ms, qd, ns, lam, dtf, ss.FLin, FloatInjectT, finter), Ms, lambda k, P: P.dtype_u(P.init, val=float(env[k])), False)
+    out, tabs = _mg_run(mg_desc(Ms, qd, ns, lam, dtf, ss.FLin, FloatInjectT, finter), Ms, lambda k, P: P.dtype_u(P.init, val=float(env[k])), False, second)
     got = np.array([float(o) for o in out])
     z = lam * dtf
     lin = lambda row, vec: float(np.dot(np.asarray(row, dtype=float)[: len(vec)], np.asarray(vec, dtype=float)))
     solve = lambda l, rhs: list(np.linalg.solve(np.eye(len(rhs)) - z * tabs['QD'][l], np.asarray(rhs, dtype=float)))
     spec = mg_spec(tabs, Ms, ns, z, env['u0'], [env[f'U{m}'] for m in range(1, Ms[0] + 1)], lin, solve)
+    if second:
+        spec = mg_spec(tabs, Ms, ns, z, env['u0b'], spec, lin, solve)
     return float(np.abs(got - np.asarray(spec, dtype=float)).max())
 
 
@@ -692,7 +708,7 @@ def replay(path):
     elif t[0] == 'defect':
         dev = float_defect(t[1], t[2], t[3])
     elif t[0] == 'multigrid':
-        dev = float_multigrid(tuple(t[1]), t[2], tuple(t[3]), -1.25, 0.25, d['env'], bool(t[4]) if len(t) > 4 else False)
+        dev = float_multigrid(tuple(t[1]), t[2], tuple(t[3]), -1.25, 0.25, d['env'], bool(t[4]) if len(t) > 4 else False, bool(t[5]) if len(t) > 5 else False)
         print('deviation', dev)
         print('REPRODUCED' if dev > 1e-11 else 'not reproduced')
         return 1 if dev > 1e-11 else 0
